@@ -828,6 +828,15 @@ func (state *RuntimeState) getUsernameIfIPRestricted(VerifiedChains [][]*x509.Ce
 	clientName := VerifiedChains[0][0].Subject.CommonName
 	userCert := VerifiedChains[0][0]
 
+	userPubKeyFP, err := getKeyFingerprint(userCert.PublicKey)
+	if err != nil {
+		return "", time.Time{}, nil, err
+	}
+	for _, revokedKeyFP := range state.Config.DenyTrustData.KeyDenyFPsshSha256 {
+		if userPubKeyFP == revokedKeyFP {
+			return "", time.Time{}, fmt.Errorf("revoked key"), nil
+		}
+	}
 	validIP, err := certgen.VerifyIPRestrictedX509CertIP(userCert, r.RemoteAddr)
 	if err != nil {
 		logger.Printf("Error verifying up restricted cert: %s", err)
